@@ -89,6 +89,61 @@ def inline_block_locals(expr: ast.AST, stmt: ast.stmt, module_tree: ast.Module =
     return substitute(expr, env)
 
 
+def _subst_once(expr: ast.AST, name: str, val: ast.AST) -> ast.AST:
+    class S(ast.NodeTransformer):
+        def visit_Name(self, n):
+            return clone(val) if (n.id == name and isinstance(n.ctx, ast.Load)) else n
+    return S().visit(expr)
+
+
+def inline_sequential(expr: ast.AST, stmt: ast.stmt, cross=(ast.If, ast.With, ast.Try), max_len: int = 4000) -> ast.AST:
+    """expr (part of stmt) rewritten over the values that were current when stmt runs: the straight-line code before stmt is walked
+    backwards and each `name = value` (or `name: T = value`) whose name the expression reads is substituted, so a chain of re-assignments
+    (`s = s.split(':'); s = s[1].strip()`) composes into one expression.  The walk continues in the enclosing block through if/with/try
+    headers, never across a loop or function boundary; a compound statement that may re-bind a name the expression reads ends it."""
+    cur_expr = clone(expr)
+    cur: Optional[ast.AST] = stmt
+    while cur is not None:
+        blk = _block_of(cur)
+        if blk is None:
+            break
+        idx = next((i for i, s in enumerate(blk) if s is cur), None)
+        if idx is None:
+            break
+        stop = False
+        for s in reversed(blk[:idx]):
+            reads = {n.id for n in ast.walk(cur_expr) if isinstance(n, ast.Name) and isinstance(n.ctx, ast.Load)}
+            tgt = None
+            if isinstance(s, ast.Assign) and len(s.targets) == 1 and isinstance(s.targets[0], ast.Name):
+                tgt, val = s.targets[0].id, s.value
+            elif isinstance(s, ast.AnnAssign) and isinstance(s.target, ast.Name) and s.value is not None:
+                tgt, val = s.target.id, s.value
+            if tgt is not None:
+                if tgt in reads:
+                    cur_expr = _subst_once(cur_expr, tgt, val)
+                    if len(ast.dump(cur_expr)) > max_len * 10:
+                        return cur_expr
+                continue
+            stored = {n.id for n in ast.walk(s) if isinstance(n, ast.Name) and isinstance(n.ctx, (ast.Store, ast.Del))}
+            if stored & reads:
+                stop = True
+                break
+        if stop:
+            break
+        up = parent(cur)
+        while up is not None and not isinstance(up, ast.stmt):
+            up = parent(up)
+        if up is None or not isinstance(up, cross):
+            break
+        # the header of a with-statement binds its `as` names
+        if isinstance(up, ast.With):
+            reads = {n.id for n in ast.walk(cur_expr) if isinstance(n, ast.Name)}
+            if any(isinstance(n, ast.Name) and n.id in reads for it in up.items if it.optional_vars is not None for n in ast.walk(it.optional_vars)):
+                break
+        cur = up
+    return ast.fix_missing_locations(cur_expr)
+
+
 def inline_simple_calls(expr: ast.AST, module_functions: Dict[str, ast.FunctionDef], depth: int = 2) -> ast.AST:
     """Calls to helper functions of the same module whose body is (docstring +) simple assignments + one `return <expr>` are replaced
     by that expression with the parameters substituted by the arguments (positional, by name)."""
